@@ -20,26 +20,27 @@ import (
 
 // ExploreOut is the JSON result of one explore run (one shard).
 type ExploreOut struct {
-	Scenario    string           `json:"scenario"`
-	Cfg         string           `json:"cfg"`
-	Bound       int              `json:"bound"`
-	Cache       bool             `json:"cache"`
-	Shard       string           `json:"shard"`
-	Execs       int64            `json:"execs"`
-	Pruned      int64            `json:"pruned"`
-	States      int              `json:"states"`
-	Steps       int64            `json:"steps"`
-	Deadlocks   int64            `json:"deadlocks"`
-	Horizons    int64            `json:"horizons"`
-	Outcomes    int              `json:"outcomes"`
-	MaxPoints   int              `json:"max_points"`
-	MaxPreempt  int              `json:"max_preempt"`
-	Exhaustive  bool             `json:"exhaustive"`
-	WallS       float64          `json:"wall_s"`
-	Violations  []ViolationOut   `json:"violations"`
-	Sample      []string         `json:"sample"`
-	OutcomeKeys []uint64         `json:"outcome_keys"`
-	Extra       map[string]int64 `json:"extra,omitempty"`
+	Scenario    string                  `json:"scenario"`
+	Cfg         string                  `json:"cfg"`
+	Bound       int                     `json:"bound"`
+	Cache       bool                    `json:"cache"`
+	Shard       string                  `json:"shard"`
+	Execs       int64                   `json:"execs"`
+	Pruned      int64                   `json:"pruned"`
+	States      int                     `json:"states"`
+	Steps       int64                   `json:"steps"`
+	Deadlocks   int64                   `json:"deadlocks"`
+	Horizons    int64                   `json:"horizons"`
+	Outcomes    int                     `json:"outcomes"`
+	MaxPoints   int                     `json:"max_points"`
+	MaxPreempt  int                     `json:"max_preempt"`
+	Exhaustive  bool                    `json:"exhaustive"`
+	WallS       float64                 `json:"wall_s"`
+	Violations  []ViolationOut          `json:"violations"`
+	Sample      []string                `json:"sample"`
+	OutcomeKeys []uint64                `json:"outcome_keys"`
+	Extra       map[string]int64        `json:"extra,omitempty"`
+	Samples     map[string]ViolationOut `json:"samples,omitempty"`
 }
 
 type ViolationOut struct {
@@ -147,6 +148,7 @@ func cmdExplore(args []string) {
 	timeout := fs.Duration("timeout", 0, "wall-clock cap (reported as non-exhaustive)")
 	maxexec := fs.Int64("maxexec", 0, "execution cap")
 	prof := fs.String("cpuprofile", "", "write cpu profile")
+	samples := fs.Bool("samples", false, "keep one execution per distinct outcome in the output")
 	fs.Parse(args)
 	if *prof != "" {
 		f, _ := os.Create(*prof)
@@ -157,6 +159,7 @@ func cmdExplore(args []string) {
 	fmt.Sscanf(*shard, "%d/%d", &ex.Shard, &ex.NShards)
 	ex.MaxViol = *maxviol
 	ex.MaxExec = *maxexec
+	ex.KeepSamples = *samples
 	if *timeout > 0 {
 		ex.Until = time.Now().Add(*timeout)
 	}
@@ -169,6 +172,12 @@ func cmdExplore(args []string) {
 		o.OutcomeKeys = append(o.OutcomeKeys, k)
 	}
 	o.Sample = eventStrings(ex.Sample)
+	for k, v := range ex.Samples {
+		if o.Samples == nil {
+			o.Samples = map[string]ViolationOut{}
+		}
+		o.Samples[fmt.Sprint(k)] = ViolationOut{Choices: v.Choices, Events: eventStrings(v.Events)}
+	}
 	for i, v := range ex.Violations {
 		// before a violation is reported its schedule is replayed twice: identical trace and the same verdict,
 		// otherwise the machinery (not the code under test) is at fault
